@@ -515,7 +515,7 @@ pub fn run(eng: &mut Engine) {
         "cases whose pointer inference does not stabilize are skipped (premise) and counted".into(),
         "identifiers the harness cannot evaluate count as represented (lenient, counted)".into(),
     ];
-    let cases = eng.tier.pick(16_000u64, 600_000u64);
+    let cases = eng.tier.pick(12_000u64, 500_000u64);
     eng.random(
         "pi-soundness",
         RandomSpec { cases, max_tape: 1400 },
